@@ -251,16 +251,15 @@ def handle (op : String) (j : Json) : Option Json :=
     let cmdRoot := getBool j "cmd_root"
     let init : Recipe := { root := if cmdRoot then b!"@B" else [] }
     let r := recipeLoop lines 1 init
-    let model := recipeOutcome r
+    let model := recipeOutcome (recipeApply lines init)
     -- manual: "root path: … The -root command-line switch overrides this."
     let spec := recipeOutcome (if cmdRoot then { r with root := b!"@B" } else r)
     let holds := impl == spec
-    let region := cmdRoot && r.errors.isEmpty && r.root != b!"@B"
     some (obj ([("model", model), ("holds", Json.bool holds), ("expected", spec),
                ("tags", tagsJ (["recipe", if r.errors.isEmpty then "recipe:ok" else "recipe:err"] ++
                   (if cmdRoot then ["recipe:cmdroot"] else []) ++
-                  (if lines.any (fun l => l.head?.any isAsciiSpace) then ["recipe:indent"] else [])))] ++
-               (if !holds && region then [("finding", Json.str "recipe-overrides-cmdline")] else [])))
+                  (if cmdRoot && r.root != b!"@B" then ["recipe:cmdroot-vs-recipe-root"] else []) ++
+                  (if lines.any (fun l => l.head?.any isAsciiSpace) then ["recipe:indent"] else [])))]))
   | _ => none
 
 end Lc.Driver.C17
